@@ -11,7 +11,7 @@ SPEC = dict(
     prop="C09",
     drivers=[
         dict(name="prune", kind="test", pkg="./overlord/state", run="TestVerifC09Prune",
-             n=dict(quick=150, thorough=20000), timeout=dict(quick=300, thorough=1500),
+             n=dict(quick=100, thorough=20000), timeout=dict(quick=300, thorough=1500),
              ev=dict(requires=["V.models.Prune"], case_type="Prune.case",
                      mismatch="Prune.mismatch", monitor="Prune.monitor_fail")),
     ],
